@@ -90,6 +90,7 @@ def c01() -> int:
     small = ["S1", "S2", "S3", "S2t"]
     big = ["S6"] if quick else ["S5", "S6"]
     big_seeds = 24 if quick else 96
+    min_seeds = 0 if quick else 320  # thorough: keep going after 1-wise coverage (joint orders of several collections)
     outdir = scratch_dir("hivemc_ord_")
     workers = ncpu()
     t0 = time.time()
@@ -146,7 +147,7 @@ def c01() -> int:
 
         nxt = base + 1
         while nxt < base + cap:
-            todo_small = [sc for sc in small if not covered(sc)]
+            todo_small = [sc for sc in small if not covered(sc) or runs_done[sc] < min_seeds]
             todo_big = [sc for sc in big if runs_done[sc] < big_seeds and not covered(sc)]
             if not todo_small and not todo_big:
                 break
